@@ -63,6 +63,22 @@ def to_defn(scn):
         {"when": "<% failed() %>" if y else "{{ failed() }}", "publish": [{"res": res}], "do": ["onfail"]},
     ]
     got = {"got": ref("res", lng, form)}
+    if scn.get("joined"):
+        # two start tasks both transition into `w` (join: 1): the second arrival may land while items are
+        # in flight, between two batches, or after the task completed
+        w["join"] = 1
+        return {
+            "input": ["xs", {"ys": []}, {"k": 1}],
+            "vars": [{"res": None}],
+            "tasks": {
+                "p1": {"action": "core.act", "input": {"who": "p1"}, "next": [{"do": ["w"]}]},
+                "p2": {"action": "core.act", "input": {"who": "p2"}, "next": [{"do": ["w"]}]},
+                "w": w,
+                "after": {"action": "core.act", "input": dict(got)},
+                "onfail": {"action": "core.act", "input": dict(got)},
+            },
+            "output": [{"res": ref("res", lng, form)}],
+        }
     return {
         "input": ["xs", {"ys": []}, {"k": 1}],
         "vars": [{"res": None}],
@@ -91,6 +107,10 @@ class Items(object):
 
     def __call__(self, drv, rec):
         op = rec["op"]
+        if self.scn.get("joined") and self.task_done_at is not None and op["op"] == "done" and op["a"][0] in ("p1", "p2"):
+            self.late_arrival = True  # R1: an arrival after the join: 1 task completed stages it again
+        if getattr(self, "late_arrival", False):
+            return
         info = lambda: {"definition": drv.defn, "inputs": drv.inputs, "history": common.history_summary(_R(drv))[-30:], "n": self.n, "k": self.k}  # noqa
         if op["op"] == "req" and not rec["rejected"]:
             if op["status"] in ("pausing", "paused"):
@@ -205,6 +225,9 @@ def run(scn, stats):
         raise Violation("engine-raised", {"error": str(e), "definition": defn, "inputs": inputs, "history": common.history_summary(r)[-30:]})
     except (provider.KnownTrigger, provider.Anomaly) as e:
         raise Violation("anomaly", {"error": repr(e), "definition": defn})
+    if getattr(ob, "late_arrival", False):
+        stats.excluded["R1"] += 1
+        return
     clean = all(s == "succeeded" for s in scn["outcomes"][:n]) and not ob.ever_hold and not r.cancel_requested
     info = {"definition": defn, "inputs": inputs, "history": common.history_summary(r)[-40:], "n": n, "k": k_eff}
     if clean:
@@ -242,6 +265,7 @@ def strategy(tier):
         "controls": st.lists(st.tuples(st.integers(1, 12), st.sampled_from(["pause", "pause2", "resume", "cancel"])).map(list), max_size=2).map(sorted),
         "style": st.integers(0, 3),
         "with_str": st.booleans(),
+        "joined": st.sampled_from([False, False, True]),
         "flags": st.just({}),
     })
 
